@@ -281,6 +281,34 @@ func init() {
 			}
 			return Str{S: string(b)}
 		},
+		// vSnapshot(roots...): record the state reachable from the roots and from
+		// the module's package-level variables; vSnapshotSame(id, roots...): that
+		// state is (bit for bit, pointer for pointer) what it was then.
+		"vSnapshot": func(x *Exec, _ *ssa.Function, a []Value) Value {
+			x.snaps = append(x.snaps, x.takeSnapshot(sliceValues(x, a[0]), x.ModPath))
+			return x.C.IntC(64, int64(len(x.snaps)-1))
+		},
+		"vSnapshotSame": func(x *Exec, _ *ssa.Function, a []Value) Value {
+			id := int(a[0].(*smt.Term).Int())
+			now := x.takeSnapshot(sliceValues(x, a[1]), x.ModPath)
+			t, diff := x.sameSnapshot(x.snaps[id], now)
+			if len(diff) > 0 {
+				x.note("state shape changed: " + strings.Join(diff, ", "))
+			}
+			return t
+		},
+		"vNative": func(x *Exec, _ *ssa.Function, a []Value) Value { return x.C.False() },
+		// vAssertCandidate: an assertion whose failure is only a candidate: it
+		// counts as a violation when the native run of the same input fails an
+		// assertion with the same label (the harness demonstrates it there).
+		"vAssertCandidate": func(x *Exec, _ *ssa.Function, a []Value) Value {
+			lbl, _ := x.concreteStr(a[1].(Str))
+			saved := x.overApprox
+			x.overApprox = true
+			defer func() { x.overApprox = saved }()
+			x.Assert(a[0].(*smt.Term), lbl)
+			return nil
+		},
 		"vLoadTape": func(x *Exec, _ *ssa.Function, a []Value) Value { return nil },
 	}
 }
